@@ -105,9 +105,26 @@ SolveCases ==
       vx |-> Vals(b.x1, b.x2, px), vy |-> Vals(b.y1, b.y2, py), exp |-> b] :
         b \in {bb \in SolveBoxes : W(bb) = H(bb)}, px \in {{"s"}, {"c"}, {"e"}}, py \in Pairs}
 
+\* shapes that give a position and no size (no box can be computed): dx / dy still move what is given, and
+\* dy alone, dx alone, the pair and the shorthand dxy are the same request.  at: attribute -> value; exp: moved
+PartialShapes == {<<"rect", {"x", "y"}>>, <<"circle", {"cx", "cy"}>>, <<"ellipse", {"cx", "cy"}>>,
+                  <<"line", {"y1", "y2"}>>, <<"line", {"x1", "x2"}>>}
+XAttrs == {"x", "cx", "x1", "x2"}
+PartialVal(a) == CASE a \in {"x", "cx", "x1"} -> 4 [] a \in {"y", "cy", "y1"} -> -8 [] a = "x2" -> 24 [] a = "y2" -> 12
+PartialCases ==
+    {x \in {[fam |-> "solve", shape |-> ps[1], partial |-> TRUE, dx |-> d[1], dy |-> d[2],
+             at |-> [a \in ps[2] |-> PartialVal(a)],
+             exp |-> [a \in ps[2] |-> PartialVal(a) + (IF a \in XAttrs THEN d[1] ELSE d[2])]] :
+            ps \in PartialShapes, d \in {<<4, -6>>, <<4, 0>>, <<0, -6>>, <<-2, 0>>, <<0, 10>>}} :
+        \* (a line given on one axis only is moved along that axis)
+        x.shape = "line" => (\A a \in DOMAIN x.at : IF a \in XAttrs THEN x.dy = 0 ELSE x.dx = 0)}
+PartialIdentity ==
+    (c.fam = "solve" /\ "partial" \in DOMAIN c) =>
+        \A a \in DOMAIN c.at : c.exp[a] - c.at[a] = (IF a \in XAttrs THEN c.dx ELSE c.dy)
+
 \* identity checked by TLC: solving the projection of an extent returns it
 SolveIdentity ==
-    c.fam = "solve" =>
+    (c.fam = "solve" /\ "partial" \notin DOMAIN c) =>
         /\ (Cardinality(c.px) = 2 => Solve(c.px, c.vx) = <<c.box.x1, c.box.x2>>)
         /\ (Cardinality(c.py) = 2 => Solve(c.py, c.vy) = <<c.box.y1, c.box.y2>>)
 
@@ -662,7 +679,7 @@ PathBoxIdentities ==
         /\ c.box.x1 <= PathStart[1] /\ c.box.x2 >= PathStart[1] /\ c.box.y1 <= PathStart[2] /\ c.box.y2 >= PathStart[2]
         /\ (IsClose(c.cmds[Len(c.cmds)]) /\ Len(c.cmds) > 1) => c.box = PathBoxOf(SubSeq(c.cmds, 1, Len(c.cmds) - 1))
 
-Cases == CASE Family = "textlines" -> TextLineCases [] Family = "pathbox" -> PathBoxCases [] Family = "unsat" -> UnsatCases [] Family = "solve" -> SolveCases
+Cases == CASE Family = "textlines" -> TextLineCases [] Family = "pathbox" -> PathBoxCases [] Family = "unsat" -> UnsatCases [] Family = "solve" -> SolveCases \cup PartialCases
            [] Family = "textpos" -> TextPosCases
            [] Family = "contain" -> ContainCases
            [] Family = "conn" -> ConnCases
